@@ -6,8 +6,11 @@ set -u
 name=$1; wt=$2; demo=$3; pat=$4; pkg=$5; shift 5
 export GOFLAGS=-mod=mod GOPROXY=off GOSUMDB=off GOTOOLCHAIN=local
 out=/verif/seeded/$name; mkdir -p $out
-cp $wt/patch.diff $out/patch.diff
-cp $wt/$demo $out/$(basename $demo)
+# <agent worktree> = "-": re-run a seed already stored under seeded/<name>/
+if [ "$wt" != "-" ]; then
+  cp $wt/patch.diff $out/patch.diff
+  cp $wt/$demo $out/$(basename $demo)
+fi
 log=$out/confirm.log; : > $log
 scratch=/tmp/seedtest-$name
 rm -rf $scratch; git -C /repo worktree add -q --detach $scratch HEAD >>$log 2>&1
@@ -24,10 +27,14 @@ rm -f $scratch/$demo
 ( cd $scratch && git apply $out/patch.diff ) >>$log 2>&1
 echo "suite_exit=$suite demo_with_change_exit=$with demo_without_change_exit=$without" | tee -a $log
 res=""
+# the checks run from a snapshot of the machinery, so that work in /verif does not disturb them
+snap=/tmp/verif-snap-$name; rm -rf $snap; mkdir -p $snap
+cp -r /verif/harness $snap/harness; cp /verif/known_findings.txt $snap/; cp /verif/bin/gosym $snap/gosym
 for p in "$@"; do
-  VERIF_REPO=$scratch VERIF_EVIDENCE_DIR=/tmp/seed-evidence VERIF_REPLAY_DIR=/tmp/seed-replays timeout 3600 /verif/bin/gosym check --property $p --tier quick > $out/check-$p.log 2>&1; rc=$?
+  VERIF_DIR=$snap VERIF_REPO=$scratch VERIF_EVIDENCE_DIR=/tmp/seed-evidence VERIF_REPLAY_DIR=/tmp/seed-replays timeout 3600 $snap/gosym check --property $p --tier quick > $out/check-$p.log 2>&1; rc=$?
   echo "check $p exit=$rc $(grep -c '^VIOLATION' $out/check-$p.log) violation line(s)" | tee -a $log
   res="$res $p:$rc"
 done
 git -C /repo worktree remove --force $scratch
+rm -rf $snap
 echo "RESULT $name suite=$suite with=$with without=$without checks:$res"
